@@ -167,6 +167,15 @@ def run_c04(tier):
     return run.finish()
 
 
+def crash_in_library(text):
+    """Does the traceback in this captured output end in the generator or in kio (and not in harness code)?"""
+    files = [l.strip() for l in text.splitlines() if l.strip().startswith('File "')]
+    if not files:
+        return False
+    last = files[-1]
+    return ("/codegen/" in last or "/src/kio/" in last) and "/verif/" not in last
+
+
 def replay(prop, path):
     if prop == "C04":
         print("replay of C04 re-runs the whole comparison (exhaustive, ~20 s)")
@@ -269,7 +278,14 @@ def run_c16(tier):
     bykey = {fn: def_key(d) for fn, d in items}
     for res in pmap(_batch, tasks, procs=min(16, len(tasks)), mem_gb=None):
         if "crash" in res:
-            raise HarnessError(res["crash"])
+            if not crash_in_library(res["crash"]):
+                raise HarnessError(res["crash"])
+            # the generator (or the generated package, or kio.serial on it) raised where a whole batch of well-formed
+            # definitions - the 186 real ones among them - is processed without error on a correct tree
+            lines = [l for l in res["crash"].strip().splitlines() if l.strip()]
+            run.report(violation("C16", "generator", f"C16/generator/fails-on-a-batch-of-well-formed-definitions/{lines[-1].split(':')[0].split('.')[-1][:40]}",
+                                 "codegen", {"traceback": res["crash"][-2500:]}, "the generator's steps run through", lines[-1][:300], (0,)))
+            continue
         for fn, why in res.pop("rejected", {}).items():
             if fn in bykey:
                 now_unsupported[bykey[fn]] = (fn, why)
